@@ -69,11 +69,7 @@ vp_second_listing_ok(int kind, uint64_t num) {
   return 1;
 }
 
-#if VP_STRICT_LOGOPEN
-#define VP_LOGRM_MSG "KF:F3-log-open-failure-ignored a log removed after recovery was read completely (or was obsolete before)"
-#else
-#define VP_LOGRM_MSG "C05.c a log removed after recovery was replayed completely (or was obsolete before)"
-#endif
+#define VP_LOGRM_MSG "C05.c/C12 a log removed after recovery was opened and replayed completely (or was obsolete before)"
 
 static int
 vp_remove_permitted(const char *name) {
